@@ -8,6 +8,8 @@ IMPLEMENTATION's observation:
   viol:completion-twice        callback invoked more than once (one loginEventFired call)
   viol:completion-before-fire  callback invoked although the event has not fired
   viol:completion-missing      terminal, fired, nothing outstanding, no cleanup/clear, no premature answer, but not invoked
+  viol:id-reused               two login plugin messages written to the client under the same id (ids are never reused:
+                               Props.ids_never_reused) — a late answer would reach the wrong consumer
   viol:consumer-twice          one registration's consumer invoked twice
   viol:wrong-consumer          a consumer got a reply the client did not send for the id its message was sent under
   viol:wrong-reply             a consumer got a reply no response of the program carries
@@ -111,6 +113,7 @@ def verdict (prog : Program) (msys : Sys) (impl : String) : String :=
   let rs := responds prog
   if prog.fires ≤ 1 && done > 1 then "viol:completion-twice"
   else if done ≥ 1 && !fired then "viol:completion-before-fire"
+  else if hasDup (cl.map (fun e => toString e.1)) then "viol:id-reused"
   else if hasDup (cons.map (·.1)) then "viol:consumer-twice"
   else
     let bad := cons.filterMap fun (enc, reply) =>
